@@ -566,6 +566,36 @@ func (c *runner) opMatches(i int, host string) {
 	c.add(fmt.Sprintf("matches %d %s", i, hx(host)), real, -1)
 }
 
+// opMatchAny runs Storage.MatchesAny, the one look at the list a question gets:
+// the first of the hosts that is a name of the list.
+func (c *runner) opMatchAny(i int, hosts []string) {
+	got := c.e.strg[i].MatchesAny(hosts)
+	want := ""
+	for _, h := range hosts {
+		if _, ok := c.e.listed[i][h]; ok {
+			want = h
+
+			break
+		}
+	}
+	if got != want {
+		c.r.Violate("storage-first-match-wrong",
+			fmt.Sprintf("Storage.MatchesAny(%q) = %q, the first listed one is %q", hosts, got, want), c.replayWith("matchany", i, hosts))
+	}
+	real := "none"
+	if got != "" {
+		real = "rule " + hx(got)
+		c.flag("matchany.some")
+	} else {
+		c.flag("matchany.none")
+	}
+	line := fmt.Sprintf("matchany %d", i)
+	for _, h := range hosts {
+		line += " " + hx(h)
+	}
+	c.add(line, real, -1)
+}
+
 func (c *runner) replayWith(op string, args ...any) map[string]any {
 	return map[string]any{"op": op, "args": args, "history_hex_ops": c.replay()}
 }
@@ -1312,6 +1342,18 @@ func listCampaign(c *runner, rng *rand.Rand, n int) {
 					s := suffixesOf(h)
 					c.opMatches(j, s[rng.IntN(len(s))])
 				}
+				if rng.IntN(3) == 0 {
+					// Any hosts, in any order, not only the hashable subdomains.
+					s := append([]string(nil), suffixesOf(h)...)
+					if len(names) > 0 && rng.IntN(2) == 0 {
+						s = append(s, names[rng.IntN(len(names))])
+					}
+					if rng.IntN(4) == 0 {
+						s = append(s, "")
+					}
+					rng.Shuffle(len(s), func(a, b int) { s[a], s[b] = s[b], s[a] })
+					c.opMatchAny(j, s[:rng.IntN(len(s)+1)])
+				}
 			}
 			for _, nm := range names {
 				switch rng.IntN(5) {
@@ -1464,6 +1506,54 @@ func boundaryCampaign(c *runner) {
 		c.finish("boundary")
 	}
 	c.r.Count("boundary.exhaustive_done")
+	edgeNames(c)
+}
+
+// edgeNames: the root name (the host is the empty string) and names of the
+// greatest length a question can have (253 characters, labels of 63), as hosts
+// and as hash-prefix queries with as many prefixes as fit.
+func edgeNames(c *runner) {
+	c.add("psclear", "ok", -1)
+	c.psSet = map[string]bool{}
+	c.opMatcherCfg()
+	l63 := strings.Repeat("a", 63)
+	long4 := strings.Repeat("b", 61) + "." + l63 + "." + strings.Repeat("c", 63) + ".example-" + strings.Repeat("d", 51) + ".com"
+	long5 := "x." + strings.Repeat("b", 59) + "." + l63 + "." + strings.Repeat("c", 63) + ".example-" + strings.Repeat("d", 51) + ".com"
+	if len(long4) != 253 || len(long5) != 253 {
+		panic(fmt.Sprintf("edgeNames: lengths %d %d", len(long4), len(long5)))
+	}
+	_, p4, _ := strings.Cut(long4, ".")
+	_, p5, _ := strings.Cut(long5, ".")
+	for _, text := range []string{"", long4 + "\n", p4 + "\n", p5 + "\n#" + long5 + "\n", "com\n.\n \n"} {
+		c.opReset(0, text)
+		c.opReset(1, text)
+		for _, h := range []string{"", long4, long5, "com"} {
+			c.opSubs(h)
+			c.opMatches(0, h)
+			for _, qt := range []uint16{dns.TypeA, dns.TypeHTTPS, dns.TypeTXT} {
+				c.opFilter(0, h, qt)
+				qn := h
+				if qn == "" {
+					qn = "."
+				}
+				c.opTXT(strings.ToUpper(qn), qt)
+			}
+		}
+		// As many prefixes as a question name holds: 46 four-character pieces
+		// and one legacy piece before the 19 characters of the suffix.
+		pieces := []string{prefixOf(long4), prefixOf(p4), prefixOf(p5) + "0000"}
+		for k := 0; len(strings.Join(pieces, "."))+5+len(c.e.sufs[0]) <= 253; k++ {
+			pieces = append(pieces, fmt.Sprintf("%04x", k*1031%65536))
+		}
+		for _, suf := range c.e.sufs {
+			qn := strings.Join(pieces, ".") + suf
+			c.opMBP(qn)
+			c.opTXT(qn, dns.TypeTXT)
+			c.opTXT(qn[:len(qn)-len(suf)-1]+"g"+suf, dns.TypeTXT) // one bad character at the very end of the prefix string
+		}
+		c.r.Count("boundary.edge_names")
+	}
+	c.finish("edge")
 }
 
 // suffixRuleCampaign: for every private rule of suffixRules, the hosts at and
@@ -1976,6 +2066,54 @@ type snapPlan struct {
 	queries [][]string            // prefix lists for Storage.Hashes
 	qnames  []string              // question names for Matcher.MatchByPrefix and the TXT path
 	probes  []string              // names for Storage.Matches
+	vhosts  []string              // four-label names below which Filter.FilterRequest is asked (verdict plans)
+}
+
+// newVerdictPlan: versions of one list in which the hosts asked about have a
+// listed parent in every version (even chains) or in most (odd chains), but not
+// the same parent: one version lists a<j>.y<j>.example.org, the next
+// y<j>.example.org.  A host r<n>.a<j>.y<j>.example.org is then dangerous under
+// every version in force, and a lookup that overlaps the resets must say so
+// (and name a parent that one of these versions lists).  The texts are short, so
+// that installs are frequent.
+func newVerdictPlan(seed uint64) (p *snapPlan) {
+	rng := rand.New(rand.NewPCG(seed, 0x7e2d))
+	p = &snapPlan{}
+	nChain, nVer := 2+rng.IntN(5), 3+rng.IntN(4)
+	var as, ys []string
+	for j := 0; j < nChain; j++ {
+		y := fmt.Sprintf("y%d-%d.example.org", j, seed%1000)
+		if j%3 == 2 {
+			// Below a private suffix: the walk to the ICANN suffix is on the path.
+			y = fmt.Sprintf("y%d-%d.blogspot.com", j, seed%1000)
+		}
+		ys, as = append(ys, y), append(as, fmt.Sprintf("a%d.%s", j, y))
+	}
+	p.vhosts = as
+	for v := 0; v < nVer; v++ {
+		var lines []string
+		for j := range as {
+			ch := 1 + (v+j)%2 // even chains: the two parents take turns
+			if j%2 == 1 {
+				ch = rng.IntN(4)
+			}
+			if ch&1 != 0 {
+				lines = append(lines, as[j])
+			}
+			if ch&2 != 0 {
+				lines = append(lines, ys[j])
+			}
+		}
+		if rng.IntN(3) == 0 {
+			lines = append(lines, "# version "+fmt.Sprint(v), "")
+		}
+		rng.Shuffle(len(lines), func(i, j int) { lines[i], lines[j] = lines[j], lines[i] })
+		text := strings.Join(lines, "\n") + "\n"
+		set, _ := oracleListed(text)
+		p.texts, p.bad, p.listed = append(p.texts, text), append(p.bad, false), append(p.listed, set)
+	}
+
+	return p
 }
 
 // snapSuffix is the TXT suffix served from storage 0.
@@ -2175,6 +2313,20 @@ func (p *snapPlan) lookups(kinds ...string) (ls []*snapLookup) {
 				}
 				ls = append(ls, l)
 			}
+		case "verdict":
+			for _, h := range p.vhosts {
+				l := &snapLookup{kind: kind, show: "r<n>." + h, name: h}
+				for v := range p.texts {
+					a := ""
+					for _, s := range oracleCandidates("r0." + h) {
+						if p.listed[v][s] > 0 && a == "" {
+							a = s
+						}
+					}
+					l.multi, l.set = append(l.multi, a), append(l.set, a)
+				}
+				ls = append(ls, l)
+			}
 		case "matches":
 			for _, n := range p.probes {
 				l := &snapLookup{kind: kind, show: n, name: n}
@@ -2219,6 +2371,7 @@ type snapRun struct {
 	finished atomic.Int64
 	overlaps atomic.Int64
 	lookupsN atomic.Int64
+	uniq     atomic.Int64
 }
 
 func (s *snapRun) find(model bool, sig, what string, input map[string]any) {
@@ -2242,6 +2395,30 @@ func (s *snapRun) ask(ctx context.Context, l *snapLookup) (ans []string, fault s
 		}
 	}()
 	switch l.kind {
+	case "verdict":
+		// A leading label of its own for every question: the filter's result
+		// cache (not cleared by Storage.Reset) never has the host.
+		host := fmt.Sprintf("r%d.%s", s.uniq.Add(1), l.name)
+		req := &dns.Msg{}
+		req.SetQuestion(dns.Fqdn(host), dns.TypeA)
+		res, err := s.e.flt[0].FilterRequest(ctx, &filter.Request{
+			DNS: req, Messages: s.e.msgs, Host: host, QType: dns.TypeA, QClass: dns.ClassINET,
+			RemoteIP: netip.MustParseAddr("192.0.2.7"),
+		})
+		switch res := res.(type) {
+		case nil:
+			if err != nil {
+				return nil, fmt.Sprintf("not answered: error %v", err)
+			}
+
+			return nil, ""
+		case *filter.ResultModifiedResponse:
+			return []string{string(res.Rule)}, ""
+		case *filter.ResultModifiedRequest:
+			return []string{string(res.Rule)}, ""
+		default:
+			return nil, fmt.Sprintf("not answered: result %T", res)
+		}
 	case "hashes":
 		return s.e.strg[0].Hashes(l.prefs), ""
 	case "mbp":
@@ -2354,6 +2531,30 @@ func (s *snapRun) check(l *snapLookup, lo, hi int64, ans []string, fault string)
 	if setOK {
 		s.find(true, "answer-repetitions-during-reset", what+fmt.Sprintf(
 			": %d answers, the right set but not once per list line and requested prefix", len(ans)), input)
+
+		return
+	}
+	if l.kind == "verdict" {
+		// The rule is not the one any version in force gives (it names a
+		// parent that one version lists, found after a miss on another).
+		sig := "host-verdict-rule-of-no-list-version-in-force-during-reset"
+		anyListed, anyNone := false, false
+		for _, v := range inForce {
+			anyListed, anyNone = anyListed || l.multi[v] != "", anyNone || l.multi[v] == ""
+		}
+		if len(ans) == 0 && !anyNone {
+			sig = "host-with-listed-parent-in-every-version-not-treated-as-listed-during-reset"
+		} else if len(ans) != 0 && !anyListed {
+			sig = "host-without-listed-parent-treated-as-listed-during-reset"
+		}
+		input["vplan_texts"] = s.plan.texts
+		s.find(false, sig, what+fmt.Sprintf(": verdict %q; the versions in force say %q", ans, func() (o []string) {
+			for _, v := range inForce {
+				o = append(o, l.multi[v])
+			}
+
+			return o
+		}()), input)
 
 		return
 	}
@@ -2471,6 +2672,22 @@ func snapChild() {
 		return e.flt[0].Refresh(ctx)
 	}, plan.lookups("txt", "txt", "mbp", "hashes"), rng, 4, 60*scale, 400*scale, int64(300*scale))
 
+	// Verdicts: Filter.FilterRequest on hosts that have a listed parent under
+	// every version, while the versions take turns.
+	vplan := newVerdictPlan(seed)
+	s3 := &snapRun{e: e, plan: vplan, res: res, phase: "verdict-reset"}
+	s3.run(func(text string) error {
+		_, rerr := e.strg[0].Reset(text)
+
+		return rerr
+	}, vplan.lookups("verdict"), rng, 4, 2000*scale, 30000*scale, int64(4000*scale))
+	s4 := &snapRun{e: e, plan: vplan, res: res, phase: "verdict-refresh"}
+	s4.run(func(text string) error {
+		hlib.Must(os.WriteFile(e.paths[0], []byte(text), 0o600))
+
+		return e.flt[0].Refresh(ctx)
+	}, vplan.lookups("verdict"), rng, 4, 60*scale, 600*scale, int64(300*scale))
+
 	out, err := json.Marshal(res)
 	hlib.Must(err)
 	fmt.Println("RESULT " + string(out))
@@ -2487,6 +2704,7 @@ func snapshotCampaign(c *runner, rng *rand.Rand, procs, scale int, modelBudget i
 		seed := rng.Uint64()
 		plan := newSnapPlan(seed, fams)
 		snapSequential(c, plan, &modelBudget)
+		verdictSequential(c, newVerdictPlan(seed))
 
 		childEnv := fmt.Sprintf("VERIF_C11_SNAP=%d %d", seed, scale)
 		gmp := []string{"", "2", "1", "4"}[p%4]
@@ -2574,6 +2792,20 @@ func snapSequential(c *runner, plan *snapPlan, budget *int) {
 		c.steps = c.steps[:0]
 		c.flags = map[string]bool{}
 	}
+}
+
+// verdictSequential: the versions and hosts of a verdict plan one after the
+// other through Filter.Refresh and Filter.FilterRequest, compared with the model.
+func verdictSequential(c *runner, plan *snapPlan) {
+	c.add("psclear", "ok", -1)
+	c.psSet = map[string]bool{}
+	for v, text := range plan.texts {
+		c.opReset(0, text)
+		for k, h := range plan.vhosts {
+			c.opFilter(0, fmt.Sprintf("r%d.%s", v*16+k, h), []uint16{dns.TypeA, dns.TypeAAAA, dns.TypeHTTPS}[(v+k)%3])
+		}
+	}
+	c.finish("verdict")
 }
 
 func bitsLen(n int) (b int) {
@@ -2685,6 +2917,12 @@ func main() {
 	}
 	questionCampaign(c, o.Rand("question"), newQStacks(e), nQ)
 
+	nW := 16
+	if o.Thorough() {
+		nW = 150
+	}
+	wiringCampaign(c, o.Rand("wiring"), nW)
+
 	// A matcher with a single, different suffix and the third storage.
 	e2 := newEnv(dir, []string{".hp.example"}, []int{2})
 	c2 := &runner{o: o, r: r, m: m, e: e2, ctx: c.ctx, flags: map[string]bool{}, psSet: map[string]bool{}}
@@ -2699,6 +2937,7 @@ func main() {
 		"subs.shape:private-hops=0/icann-labels=0", "filter.matched_by_outer_private_suffix_domain",
 		"question.listed:" + string(filter.IDSafeBrowsing), "question.listed:" + string(filter.IDAdultBlocking),
 		"question.listed:" + string(filter.IDNewRegDomains), "question.none", "question.nothing_enabled", "txt.near_miss_name",
+		"wiring.restart", "wiring.install:fault", "wiring.install:ok", "wiring.group_question",
 	} {
 		if r.Distribution[need] == 0 {
 			r.Disagree("coverage-lost:"+need, "no case reached the class "+need+
